@@ -643,6 +643,25 @@ func (rn *runner) storedCase(k int, r *prng.R) {
 		}
 		o.Count("stored:valid")
 	case 1: // item-level mutations: the lenient conversions of FromStackItem
+		if cs, isC := v.(*state.Contract); isC && r.Chance(1, 4) {
+			// the NEF field in another spelling, its checksum over the canonical bytes or recomputed over the bytes as
+			// written (FileFromBytes must judge it like DecodeBinary: by the checksum of the re-encoding)
+			if nb, cuts, err := encodeSeg(&cs.NEF); err == nil {
+				for tries := 0; tries < 10; tries++ {
+					mb, m := mutate(r, nb, cuts)
+					if m == mutNonMin || m == mutBool {
+						if r.Bool() {
+							mb = sealNEF(mb)
+							m += "+resealed"
+						}
+						f := it.Value().([]stackitem.Item)
+						f[3] = stackitem.NewByteArray(mb)
+						o.Count("stored:mut:nef-" + m)
+						break
+					}
+				}
+			}
+		}
 		kinds := ""
 		for i := 1 + r.Intn(2); i > 0; i-- {
 			var kd string
